@@ -110,8 +110,6 @@ def main():
             if restore is not None:
                 be.end_write = restore
         ent["t_rel"] = time.monotonic_ns()
-        be._write_queue.clear()
-        be._usedmem = 0
         log.write(json.dumps(ent) + "\n")
         with open(donef, "ab") as f:
             f.write(b".")
